@@ -62,7 +62,9 @@ RInit(params, h0) ==
     /\ x = params.x0 /\ xold = params.x0 /\ xph = params.x0
     /\ h0 >= 0 /\ params.x0 + h0 <= params.shi
     /\ h = h0
-    /\ last = (params.slo <= params.x0 + h0)
+    \* (`first_step_lands` is a strict test made after the clamp to h_max: a first step cut to the interval by that clamp
+    \*  arrives at xend with the flag unset and leaves through the arrival test instead)
+    /\ last \in {params.slo <= params.x0 + h0, FALSE}
     /\ first = TRUE /\ reject = FALSE /\ callJac = TRUE /\ callDecomp = TRUE
     /\ sing = 0 /\ theta = "init" /\ it = 0 /\ pc = "f0" /\ status = "None"
     /\ nJac = 0 /\ nLu = 0 /\ nOde = 0 /\ total = 0 /\ acc = 0 /\ rej = 0 /\ ncb = 0
@@ -101,7 +103,7 @@ Fail(g, redo) ==
     THEN /\ Finish("SingularMatrix") /\ sing' = sing + 1
          /\ UNCHANGED <<h, reject, last, callDecomp>>
     ELSE /\ sing' = sing + 1
-         /\ g < h /\ g >= 0 /\ h' = g
+         /\ (Metric => g < h) /\ g >= 0 /\ h' = g
          /\ reject' = TRUE /\ last' = FALSE
          /\ callDecomp' = (callDecomp \/ redo)
          /\ pc' = "top" /\ UNCHANGED status
